@@ -7,6 +7,8 @@ from concurrent.futures import ThreadPoolExecutor
 HERE = os.path.dirname(os.path.dirname(os.path.abspath(__file__)))
 ENV = dict(os.environ, GOFLAGS="-mod=mod", GOPROXY="off", GOWORK="off")
 props = [c["property_id"] for c in json.load(open(os.path.join(HERE, "MANIFEST.json")))["checks"]]
+if os.environ.get("PROPS"):
+    props = os.environ["PROPS"].split(",")  # e.g. PROPS=ALL: every rule once
 ns = {}
 exec(open(sys.argv[1]).read(), ns)
 
